@@ -348,7 +348,11 @@ class AbsEval:
             if isinstance(x, Kind) and isinstance(y, Const):
                 ky = kind_of_const(y.v)
                 num = {'int', 'bool', 'float'}
-                if x.k != ky and not (x.k in num and ky in num) and x.k != 'other':
+                if x.k != ky and not (x.k in num and ky in num):
+                    # 'other' = a value of none of the builtin kinds: never equal to a literal
+                    return False
+                if 'neq' in x.attrs and any(type(n) is type(y.v) and n == y.v
+                                            for n in x.attrs['neq']):
                     return False
                 if x.k == 'str' and x.attrs.get('single') and isinstance(y.v, str):
                     fc = x.attrs.get('first')
